@@ -556,12 +556,48 @@ def preA (a : A) (r : Round) : A :=
 def preReads (a : A) (r : Round) : List Read :=
   r.reads.filter (fun rd => ((a.mods.filter (·.alive)).map (·.uid)).contains rd.uid)
 
+/-- the Spec's abstract state after clock, failure environment and `accept` — the writable set is still the one the
+    previous poll left -/
+def preAcc (a : A) (r : Round) : A :=
+  let a1 : A := envA a r
+  if r.accept then { a1 with nAccepted := a1.nAccepted + 1, mods := a1.mods ++ [{ uid := a1.nAccepted + 1 }] } else a1
+
+/-- the writable set this round's poll leaves -/
+def preW (a : A) (r : Round) : List Nat :=
+  let a1 : A := envA a r
+  let liveBefore := (a1.mods.filter (·.alive)).map (·.uid)
+  let reads := r.reads.filter (fun rd => liveBefore.contains rd.uid)
+  let a2 : A := if r.accept then { a1 with nAccepted := a1.nAccepted + 1, mods := a1.mods ++ [{ uid := a1.nAccepted + 1 }] } else a1
+  let live := (a2.mods.filter (·.alive)).map (·.uid)
+  if r.accept || !reads.isEmpty then (if reads.isEmpty then [] else r.writable.filter (live.contains ·)) else a2.w
+
+theorem preA_eq (a : A) (r : Round) : preA a r = { preAcc a r with w := preW a r } := by
+  unfold preA preAcc preW
+  dsimp only
+  split <;> rfl
+
+/-- the state the stretch before the first frame read is judged in (`Spec.roundBody`): the accept branch runs before the
+    round's poll; when no frame is read the stretch also holds the periodic section, which runs after it — then only a
+    connection ready by both polls counts as ready -/
+def preSt (a : A) (r : Round) (segs : List (Nat × List Ev)) : A :=
+  if segs.isEmpty then { preAcc a r with w := (preAcc a r).w.filter ((preW a r).contains ·) } else preAcc a r
+
+theorem preSt_nil (a : A) (r : Round) :
+    preSt a r [] = { preAcc a r with w := (preAcc a r).w.filter ((preW a r).contains ·) } := rfl
+
+theorem preSt_ne (a : A) (r : Round) {segs : List (Nat × List Ev)} (h : segs ≠ []) : preSt a r segs = preAcc a r := by
+  unfold preSt
+  cases segs with
+  | nil => exact absurd rfl h
+  | cons _ _ => rfl
+
 /-- the abstract state in which the Spec starts to replay the frames read: the events before the first `rd` marker
-    (the `accept` log line) checked and their departures applied -/
-def goStart (cfg : Cfg) (a3 : A) (pre : List Ev) : A :=
-  Spec.applyDepartures (Spec.checkDepartures cfg (Spec.checkNoticeOrigin cfg
-    (a3.chk ((Spec.closes pre).isEmpty || !(Spec.wfails pre).isEmpty) "C07"
-      "a connection was closed before any frame was read in this round") none pre) none pre) pre
+    (the `accept` log line; the whole round when no frame is read) checked in `aP` and their departures applied, then
+    the writable set of the round's poll -/
+def goStart (cfg : Cfg) (aP : A) (wNew : List Nat) (pre : List Ev) : A :=
+  { Spec.applyDepartures (Spec.checkDepartures cfg (Spec.checkNoticeOrigin cfg
+      (aP.chk ((Spec.closes pre).isEmpty || !(Spec.wfails pre).isEmpty) "C07"
+        "a connection was closed before any frame was read in this round") none pre) none pre) pre with w := wNew }
 
 /-- the end of `Spec.round`: tallies for the statistics checks and the periodic section -/
 def roundEnd (cfg : Cfg) (a : A) (pre : List Ev) (segs : List (Nat × List Ev)) : A :=
@@ -570,34 +606,48 @@ def roundEnd (cfg : Cfg) (a : A) (pre : List Ev) (segs : List (Nat × List Ev)) 
   Spec.tail cfg a lastEvs
 
 /-- the rest of `Spec.round` -/
-def roundRest (cfg : Cfg) (a3 : A) (reads : List Read) (pre : List Ev) (segs : List (Nat × List Ev)) : A :=
-  roundEnd cfg (Spec.roundBody.go cfg (goStart cfg a3 pre) reads segs (reads.length + segs.length + 1)) pre segs
+def roundRest (cfg : Cfg) (aP : A) (wNew : List Nat) (reads : List Read) (pre : List Ev) (segs : List (Nat × List Ev)) : A :=
+  roundEnd cfg (Spec.roundBody.go cfg (goStart cfg aP wNew pre) reads segs (reads.length + segs.length + 1)) pre segs
 
-theorem goStart_ext (cfg : Cfg) (a3 : A) (pre : List Ev) :
-    ∃ X, Spec.CoreExt ("C07" :: others) a3 X ∧ goStart cfg a3 pre = Spec.applyDepartures X pre :=
-  ⟨_, (((Spec.errExt_chk ["C07"] a3 _ "C07" _ (by simp)).mono (by simp)).core.trans
-    ((Spec.checkNoticeOrigin_ext cfg _ none pre).mono (by simp [others])).core).trans
-    ((Spec.checkDepartures_ext cfg _ none pre).mono (by simp [others])).core, rfl⟩
+theorem applyDepartures_withW (a : A) (w : List Nat) (evs : List Ev) :
+    Spec.applyDepartures ({ a with w := w } : A) evs = ({ Spec.applyDepartures a evs with w := w } : A) := by
+  rw [Spec.applyDepartures_eq, Spec.applyDepartures_eq]
 
-/-- the C07 clauses of the stretch before the first frame read, from the simulation at its end and its departure facts -/
-theorem goStart_c07 {cfg : Cfg} {a3 : A} {sE : State} (pre0 pre : List Ev) (hs : Sim cfg (Spec.applyDepartures a3 pre) sE)
-    (ao : AllOpen sE) (j : J sE) (t : T sE) (he : sE.out = pre0 ++ pre) (d : DepE cfg none none sE pre)
-    (hn : Spec.NoErr "C07" a3) : Spec.NoErr "C07" (goStart cfg a3 pre) := by
+theorem coreExt_withW {T : List String} {a b : A} (h : Spec.CoreExt T a b) (w : List Nat) :
+    Spec.CoreExt T ({ a with w := w } : A) ({ b with w := w } : A) :=
+  ⟨h.mods, h.buf, h.fail, rfl, h.nAccepted, h.errs⟩
+
+theorem goStart_ext (cfg : Cfg) (aP : A) (wNew : List Nat) (pre : List Ev) :
+    ∃ X, Spec.CoreExt ("C07" :: others) ({ aP with w := wNew } : A) X ∧ goStart cfg aP wNew pre = Spec.applyDepartures X pre := by
+  have h : Spec.CoreExt ("C07" :: others) aP (Spec.checkDepartures cfg (Spec.checkNoticeOrigin cfg
+      (aP.chk ((Spec.closes pre).isEmpty || !(Spec.wfails pre).isEmpty) "C07"
+        "a connection was closed before any frame was read in this round") none pre) none pre) :=
+    (((Spec.errExt_chk ["C07"] aP _ "C07" _ (by simp)).mono (by simp)).core.trans
+      ((Spec.checkNoticeOrigin_ext cfg _ none pre).mono (by simp [others])).core).trans
+      ((Spec.checkDepartures_ext cfg _ none pre).mono (by simp [others])).core
+  exact ⟨_, coreExt_withW h wNew, by unfold goStart; exact (applyDepartures_withW _ wNew pre).symm⟩
+
+/-- the C07 clauses of the stretch before the first frame read hold once `checkDepartures` adds at most C14 entries on
+    it and every close in it has a failed write -/
+theorem goStart_c07 {cfg : Cfg} {aP : A} (wNew : List Nat) (pre : List Ev)
+    (hjust : ∀ v, Ev.close v ∈ pre → Ev.wfail v ∈ pre)
+    (hD : ∀ X, Spec.CoreExt ["C14"] aP X → Spec.ErrExt ["C14"] X (Spec.checkDepartures cfg X none pre))
+    (hn : Spec.NoErr "C07" aP) : Spec.NoErr "C07" (goStart cfg aP wNew pre) := by
   unfold goStart
   have h1 : ((Spec.closes pre).isEmpty || !(Spec.wfails pre).isEmpty) = true := by
     cases hc : Spec.closes pre with
     | nil => rfl
     | cons v rest =>
       have hv : Ev.close v ∈ pre := (mem_closes pre v).mp (by rw [hc]; simp)
-      have hw : Ev.wfail v ∈ pre := (d.just v hv).resolve_left (by simp)
-      have : v ∈ Spec.wfails pre := (Spec.mem_wfails pre v).mpr hw
+      have : v ∈ Spec.wfails pre := (Spec.mem_wfails pre v).mpr (hjust v hv)
       cases hwf : Spec.wfails pre with
       | nil => rw [hwf] at this; cases this
       | cons _ _ => rfl
   rw [Spec.chk_of _ _ _ _ h1]
-  have hN := Spec.checkNoticeOrigin_ext cfg a3 none pre
-  have hD := dep_ext_fin pre0 pre hs ao j t he hN.core none d (fun u hu => by cases hu)
-  exact noErr_applyDepartures pre (hD.noErr (by simp) (hN.noErr (by simp) hn))
+  have hN := Spec.checkNoticeOrigin_ext cfg aP none pre
+  have hDD := hD _ hN.core
+  show Spec.NoErr "C07" (Spec.applyDepartures _ pre)
+  exact noErr_applyDepartures pre (hDD.noErr (by simp) (hN.noErr (by simp) hn))
 
 theorem roundEnd_ext (cfg : Cfg) (a : A) (pre : List Ev) (segs : List (Nat × List Ev)) :
     Spec.CoreExt others a (roundEnd cfg a pre segs) := by
@@ -610,8 +660,9 @@ theorem roundEnd_ext (cfg : Cfg) (a : A) (pre : List Ev) (segs : List (Nat × Li
   exact hb.trans (core_others (Spec.tail_ext cfg b lastEvs))
 
 theorem round_eq (cfg : Cfg) (a : A) (r : Round) (evs : List Ev) :
-    Spec.round cfg a r evs = roundRest cfg (preA a r) (preReads a r) (Spec.splitRd evs).1 (Spec.splitRd evs).2 := by
-  unfold Spec.round Spec.roundBody roundRest roundEnd goStart preA preReads envA
+    Spec.round cfg a r evs =
+      roundRest cfg (preSt a r (Spec.splitRd evs).2) (preW a r) (preReads a r) (Spec.splitRd evs).1 (Spec.splitRd evs).2 := by
+  unfold Spec.round Spec.roundBody roundRest roundEnd goStart preSt preAcc preW preReads envA
   rfl
 
 /-- the model state in which the frames of the round are read -/
@@ -780,75 +831,6 @@ theorem pre_ok {a : A} {s : State} (inv : Inv cfg a s) (r : Round) (hwf : ∀ rd
 
 end pre
 
-section preDep
-variable {cfg : Cfg} (ok : CfgOK cfg) (hfuel : cfg.fuel = 0) (hall : OrdAll cfg)
-include ok hfuel hall
-
-/-- a round in which a new connection is accepted reads no frame — unless log lines of level INFO are not forwarded at
-    all: the INFO log line of `accept` is delivered with the writable set of the *previous* `select` (it is sampled
-    afresh only afterwards, and only when there is a frame to read), while the Spec judges the whole stretch before the
-    first frame read with the new one — the two agree when the new set is empty, or when the line writes nothing -/
-def AccOK (cfg : Cfg) (s : State) (r : Round) : Prop := r.accept = true → 20 ≥ cfg.logLevel → readsS s r = []
-
-omit ok hfuel hall in
-/-- nobody becomes able to take a CLIENT_CLOSED frame by `accept` with an empty writable set: the new table entry is
-    subscribed to nothing -/
-theorem back_accept (cfg : Cfg) {sL : State} (inv : SubInv cfg sL) :
-    Back cfg sL { sL with nextUid := sL.nextUid + 1, mods := sL.mods ++ [{ uid := sL.nextUid + 1 }], wlist := [] } := by
-  intro o' ⟨m, hm, hc, hf, hi, hw⟩
-  have hin : ∃ t, o' ∈ idxGet sL.idx t := by
-    rcases hi with x | x
-    · exact ⟨_, x⟩
-    · exact ⟨_, x⟩
-  obtain ⟨t, ht⟩ := hin
-  obtain ⟨m', hm', _⟩ := inv.sub t o' ht
-  have hm2 : (sL.mods ++ [({ uid := sL.nextUid + 1 } : Module)]).find? (·.uid == o') = some m := hm
-  rw [List.find?_append] at hm2
-  have hm3 : sL.mods.find? (·.uid == o') = some m' := hm'
-  rw [hm3] at hm2
-  simp at hm2
-  subst hm2
-  refine ⟨m', hm', hc, hf, hi, ?_⟩
-  rcases hw with x | x
-  · cases x
-  · exact Or.inr x
-
-/-- the departure facts of the preamble of a round -/
-theorem pre_dep {s : State} (h : Top cfg s) (r : Round) (hacc : AccOK cfg s r) : Dep cfg none none s (preS cfg s r) := by
-  have t1 : Top cfg (envStep s r) := top_same ok hfuel h _ rfl rfl rfl
-  unfold preS
-  dsimp only
-  have hrd : r.reads.filter (fun rd => ((envStep s r).find rd.uid).isSome) = readsS s r := rfl
-  rw [hrd]
-  generalize hs1 : envStep s r = s1 at t1
-  have ho1 : s1.out = s.out := by rw [← hs1]; rfl
-  cases hacc' : r.accept with
-  | false =>
-    simp only [Bool.false_or, Bool.false_eq_true, if_false]
-    split
-    · exact dep_same ho1
-    · exact dep_same ho1
-  | true =>
-    by_cases hlvl : 20 ≥ cfg.logLevel
-    case neg =>
-      -- the line is not forwarded: no event at all
-      simp only [Bool.true_or, if_true]
-      have : acceptStep cfg s1 = { s1 with nextUid := s1.nextUid + 1, mods := s1.mods ++ [{ uid := s1.nextUid + 1 }] } := by
-        unfold acceptStep logAt; simp only [hlvl, if_false]
-      rw [this]
-      exact dep_same ho1
-    have hre : readsS s r = [] := hacc hacc' hlvl
-    simp only [Bool.true_or, if_true, hre, List.isEmpty_nil]
-    have dL := dt_log ok hall hfuel t1 20
-    generalize hsL : logAt cfg (fwdTop cfg) 20 s1 = sL at dL
-    have hacS : acceptStep cfg s1 = { sL with nextUid := sL.nextUid + 1, mods := sL.mods ++ [{ uid := sL.nextUid + 1 }] } := by
-      unfold acceptStep; rw [hsL]
-    rw [hacS]
-    obtain ⟨e, o, d⟩ := dL.dep
-    exact ⟨e, by show sL.out = _; rw [o, ho1], d.back (back_accept cfg dL.top.good.inv)⟩
-
-end preDep
-
 section preT
 variable {cfg : Cfg} (ok : CfgOK cfg) (hmt : cfg.mtClosed ≠ cfg.allTypes) (hord : OrdOK cfg) (hfuel : cfg.fuel = 0)
 include ok hmt hord hfuel
@@ -868,6 +850,56 @@ theorem pre_T {s : State} (h : Top cfg s) (ht : T s) (r : Round) : T (preS cfg s
     exact T_of_A ha.2 (fun o v => stepA_same rfl rfl rfl)
   · exact t0
 
+theorem preS_out (s : State) (r : Round) :
+    (preS cfg s r).out = if r.accept then (logAt cfg (fwdTop cfg) 20 (envStep s r)).out else s.out := by
+  unfold preS
+  dsimp only
+  cases r.accept with
+  | false =>
+    simp only [Bool.false_or, Bool.false_eq_true, if_false]
+    split <;> rfl
+  | true =>
+    simp only [Bool.true_or, if_true]
+    rfl
+
+/-- **The accept branch of a round, judged by the previous poll.**  The events before the wait for writable sockets —
+the INFO log line of `accept` and whatever its delivery triggers — end in a state (before the new table entry, before
+the new writable set) that the abstract state, with the *old* writable set and the departures so far applied,
+simulates; and they meet the departure facts relative to that state. -/
+theorem pre_old (hall : OrdAll cfg) {a : A} {s : State} (inv : Inv cfg a s) (r : Round) (eAcc : List Ev)
+    (hPout : (preS cfg s r).out = s.out ++ eAcc) :
+    ∃ s1' : State, Sim cfg (Spec.applyDepartures (envA a r) eAcc) s1' ∧ AllOpen s1' ∧ J s1' ∧ T s1' ∧
+      s1'.out = s.out ++ eAcc ∧ DepE cfg none none s1' eAcc := by
+  have hs1 := sim_env inv.sim r
+  have ta1 : TA cfg s (envStep s r) := by unfold envStep; exact ta_same ok hmt hord hfuel inv.top _ rfl rfl rfl rfl rfl
+  have t1 := ta1.1
+  have tt1 : T (envStep s r) := T_of_A inv.t ta1.2
+  have j1 : J (envStep s r) := J_same inv.j rfl rfl rfl
+  rw [preS_out ok hmt hord hfuel] at hPout
+  cases hacc : r.accept with
+  | false =>
+    rw [hacc] at hPout
+    simp only [Bool.false_eq_true, if_false] at hPout
+    have : eAcc = [] := by
+      have : s.out ++ [] = s.out ++ eAcc := by simpa using hPout
+      exact (List.append_cancel_left this).symm
+    subst this
+    exact ⟨envStep s r, hs1, t1.aopen, j1, tt1, by simp [envStep], depE_nil _ _ _ _⟩
+  | true =>
+    rw [hacc] at hPout
+    simp only [if_true] at hPout
+    have dtL := dt_log ok hall hfuel t1 20
+    have taL := ta_log ok hmt hord hfuel t1 20
+    have jL : J (logAt cfg (fwdTop cfg) 20 (envStep s r)) := logAt_J (fwdTop_J cfg) j1 20
+    obtain ⟨e, o, d⟩ := dtL.dep
+    have ho1 : (envStep s r).out = s.out := rfl
+    have : e = eAcc := by
+      have h : s.out ++ e = s.out ++ eAcc := by rw [← hPout, o, ho1]
+      exact List.append_cancel_left h
+    subst this
+    exact ⟨_, sim_quiet hs1 t1.aopen dtL.top.aopen (logTop_nest cfg 20 _) jL e o, dtL.top.aopen, jL,
+      T_of_A tt1 taL.2, hPout, d⟩
+
 end preT
 
 /-! ## one round -/
@@ -879,32 +911,62 @@ section round
 variable {cfg : Cfg} (ok : CfgOK cfg) (hfuel : cfg.fuel = 0) (hperm : OrdPerm cfg) (hmt : cfg.mtClosed ≠ cfg.allTypes)
 include ok hfuel hperm hmt
 
+omit ok hfuel hperm hmt in
+/-- the connections the Spec may count as observers of the accept branch were simulated before it -/
+theorem live_old {cfg : Cfg} {a1 : A} {s1' : State} (e eAll : List Ev) (hs : Sim cfg (Spec.applyDepartures a1 e) s1')
+    (hsub : ∀ v, Ev.close v ∈ e → Ev.close v ∈ eAll) (acc : Bool) (o : AMod)
+    (ho : o ∈ (if acc then ({ a1 with nAccepted := a1.nAccepted + 1, mods := a1.mods ++ [{ uid := a1.nAccepted + 1 }] } : A)
+      else a1).mods) (hal : o.alive = true) (hsb : Spec.subscribed o cfg.mtClosed = true)
+    (hnc : (Spec.closes eAll).contains o.uid = false) : (Spec.applyDepartures a1 e).live o.uid = some o := by
+  have hnd : (a1.mods.map (·.uid)).Nodup := by
+    have := uids_nodup hs.uids
+    rw [Spec.applyDepartures_uids] at this; exact this
+  have hmem : o ∈ a1.mods := by
+    cases acc with
+    | false => exact ho
+    | true =>
+      rcases List.mem_append.mp ho with h | h
+      · exact h
+      · simp only [List.mem_singleton] at h
+        subst h
+        simp [Spec.subscribed] at hsb
+  have hnc' : (Spec.closes e).contains o.uid = false := by
+    cases hc : (Spec.closes e).contains o.uid with
+    | false => rfl
+    | true =>
+      have := (mem_closes eAll o.uid).mpr (hsub _ ((mem_closes e o.uid).mp (by simpa using hc)))
+      rw [← List.contains_iff_mem] at this
+      rw [this] at hnc; cases hnc
+  rw [Spec.applyDepartures_live, hnc']
+  simp only [Bool.false_eq_true, if_false]
+  exact live_of_mem hnd hmem hal
+
 /-- **One round.**  If the abstract state simulates the model state, then after the model has played round `r` and the
 Spec has replayed the round against the events the model wrote in it, the simulation holds again and no clause of a
-proved property was reported violated (for C07: in a round that meets `AccOK`). -/
+proved property was reported violated. -/
 theorem round_ok {a : A} {s : State} (inv : Inv cfg a s) (r : Round) (hwf : RoundWF r) (evs : List Ev)
     (he : (step cfg s r).out = s.out ++ evs) :
     Inv cfg (Spec.round cfg a r evs) (step cfg s r) ∧
-    (∀ p ∈ proven, (p = "C07" → AccOK cfg s r) → Spec.NoErr p a → Spec.NoErr p (Spec.round cfg a r evs)) := by
+    (∀ p ∈ proven, Spec.NoErr p a → Spec.NoErr p (Spec.round cfg a r evs)) := by
   have hord : OrdOK cfg := ordOK_of_perm hperm
   have hall : OrdAll cfg := OrdAll_of_perm hperm
   have tStep : T (step cfg s r) := step_T ok hmt hord hfuel inv.top inv.t r
   have tPre : T (preS cfg s r) := pre_T ok hmt hord hfuel inv.top inv.t r
-  have dPre : AccOK cfg s r → Dep cfg none none s (preS cfg s r) := pre_dep ok hfuel hall inv.top r
   rw [round_eq]
   rw [step_eq cfg s r inv.top.good.ok] at he tStep ⊢
   obtain ⟨eAcc, hPout, hnoAcc, hsP, tP, jP, hreads, herrs⟩ := pre_ok ok hfuel inv r hwf
+  obtain ⟨s1', hs1', ao1', j1', t1', ho1', d1'⟩ := pre_old ok hmt hord hfuel hall inv r eAcc hPout
   rw [hreads]
   have hwf' : ∀ rd ∈ readsS s r, rd.uid ≠ 0 := fun rd hrd => hwf rd (List.mem_filter.mp hrd).1
-  have dPre' : AccOK cfg s r → DepE cfg none none (preS cfg s r) eAcc := by
-    intro h
-    obtain ⟨e, o, d⟩ := dPre h
-    have : e = eAcc := List.append_cancel_left (o.symm.trans hPout)
-    rw [← this]; exact d
-  generalize hAcc : AccOK cfg s r = acc at dPre'
+  rw [preA_eq] at hsP herrs
+  have herrs' : (preAcc a r).errs = a.errs := herrs
+  have hAccDef : preAcc a r = (if r.accept then
+      ({ envA a r with nAccepted := (envA a r).nAccepted + 1, mods := (envA a r).mods ++ [{ uid := (envA a r).nAccepted + 1 }] } : A)
+      else envA a r) := rfl
+  have hAccW : (preAcc a r).w = (envA a r).w := by rw [hAccDef]; split <;> rfl
+  have hAccF : (preAcc a r).fail = (envA a r).fail := by rw [hAccDef]; split <;> rfl
   generalize readsS s r = reads at *
   generalize preS cfg s r = sP at *
-  generalize preA a r = a3 at *
   have hdP : (sP.mods.map (·.uid)).Nodup := hsP.minv.distinct
   have tR := top_readAll ok hfuel reads tP
   have jR : J (readAll cfg reads sP) := readAll_J cfg reads jP
@@ -921,76 +983,114 @@ theorem round_ok {a : A} {s : State} (inv : Inv cfg a s) (r : Round) (hwf : Roun
     exact List.append_cancel_left this
   have hsplit := splitRd_append eAcc (E1 ++ E2) hnoAcc
   rw [← hevs] at hsplit
-  obtain ⟨X0, hX0, hgs0⟩ := goStart_ext cfg a3 eAcc
-  have inv0 : Inv cfg (goStart cfg a3 eAcc) sP := by
+  -- the state the loop over the frames starts in when a frame is read: the accept branch judged by the previous poll
+  obtain ⟨X0, hX0, hgs0⟩ := goStart_ext cfg (preAcc a r) (preW a r) eAcc
+  have inv0 : Inv cfg (goStart cfg (preAcc a r) (preW a r) eAcc) sP := by
     rw [hgs0]; exact ⟨sim_coreExt hsP (Spec.applyDepartures_coreExt hX0 eAcc), tP, jP, tPre⟩
-  have herr0 : ∀ p ∈ proven, (p = "C07" → acc) → Spec.NoErr p a → Spec.NoErr p (goStart cfg a3 eAcc) := by
-    intro p hp hc hn
-    have hn3 : Spec.NoErr p a3 := by unfold Spec.NoErr; rw [herrs]; exact hn
+  have herr0 : ∀ p ∈ proven, Spec.NoErr p a → Spec.NoErr p (goStart cfg (preAcc a r) (preW a r) eAcc) := by
+    intro p hp hn
+    have hn3 : Spec.NoErr p (preAcc a r) := by unfold Spec.NoErr; rw [herrs']; exact hn
     by_cases h7 : p = "C07"
     · subst h7
-      exact goStart_c07 s.out eAcc hsP tP.aopen jP tPre hPout (dPre' (hc rfl)) hn3
+      refine goStart_c07 (preW a r) eAcc (fun v hv => (d1'.just v hv).resolve_left (by simp)) (fun X hX => ?_) hn3
+      refine dep_ext_end hs1' ao1' j1' t1' s.out eAcc ho1' (fun o ho hal hsb hnc => ?_) (fun u hu => ?_) ?_ none d1'
+        (fun u hu => by cases hu)
+      · rw [hX.mods, hAccDef] at ho
+        exact live_old eAcc eAcc hs1' (fun _ h => h) r.accept o ho hal hsb hnc
+      · rw [(Spec.applyDepartures_core (envA a r) eAcc).2.2.1, ← hAccW, ← hX.w]; exact hu
+      · rw [(Spec.applyDepartures_core (envA a r) eAcc).2.1, hX.fail, hAccF]
     · rw [hgs0]
-      refine noErr_applyDepartures eAcc (hX0.noErr (fun hm => ?_) hn3)
+      have hn3' : Spec.NoErr p ({ preAcc a r with w := preW a r } : A) := hn3
+      refine noErr_applyDepartures eAcc (hX0.noErr (fun hm => ?_) hn3')
       rcases List.mem_cons.mp hm with x | x
       · exact h7 x
       · exact proven_not hp x
   unfold roundRest
-  rcases readAll_go ok hfuel hperm hmt reads (goStart cfg a3 eAcc) sP (ticks cfg (readAll cfg reads sP)) (E1 ++ E2)
-      (reads.length + (Spec.splitRd (E1 ++ E2)).2.length + 1) inv0 hwf' (by omega) q hE with
+  rcases readAll_go ok hfuel hperm hmt reads (goStart cfg (preAcc a r) (preW a r) eAcc) sP (ticks cfg (readAll cfg reads sP))
+      (E1 ++ E2) (reads.length + (Spec.splitRd (E1 ++ E2)).2.length + 1) inv0 hwf' (by omega) q hE with
       ⟨hnoE, hid, hskip⟩ | ⟨hp1, hp2, hp3, hp4⟩
-  · -- no frame was read in this round
+  · -- no frame was read in this round: the whole round is one stretch
     have hs2 : Spec.splitRd (E1 ++ E2) = (E1 ++ E2, []) := splitRd_noRd _ hnoE
     rw [hsplit, hs2, ← hevs]
     simp only [List.length_nil, Nat.add_zero]
-    obtain ⟨X, hX, hgs⟩ := goStart_ext cfg a3 evs
-    have hsimA : Sim cfg (Spec.applyDepartures a3 evs) (ticks cfg (readAll cfg reads sP)) := by
+    rw [preSt_nil]
+    generalize hwP : (preAcc a r).w.filter ((preW a r).contains ·) = wP
+    obtain ⟨X, hX, hgs⟩ := goStart_ext cfg ({ preAcc a r with w := wP } : A) (preW a r) evs
+    have hX' : Spec.CoreExt ("C07" :: others) ({ preAcc a r with w := preW a r } : A) X := hX
+    have hsimA : Sim cfg (Spec.applyDepartures ({ preAcc a r with w := preW a r } : A) evs) (ticks cfg (readAll cfg reads sP)) := by
       rw [hevs, ← applyDepartures_append]
       have hn : Nest sP (ticks cfg (readAll cfg reads sP)) := by rw [hid]; exact ticks_nest cfg sP
       exact sim_quiet hsP tP.aopen q.top.aopen hn q.j (E1 ++ E2) hE
-    have hsimT : Sim cfg (goStart cfg a3 evs) (ticks cfg (readAll cfg reads sP)) := by
-      rw [hgs]; exact sim_coreExt hsimA (Spec.applyDepartures_coreExt hX _)
-    have hdead : ∀ x ∈ reads, (goStart cfg a3 evs).live x.uid = none := by
+    have hsimT : Sim cfg (goStart cfg ({ preAcc a r with w := wP } : A) (preW a r) evs) (ticks cfg (readAll cfg reads sP)) := by
+      rw [hgs]; exact sim_coreExt hsimA (Spec.applyDepartures_coreExt hX' _)
+    have hdead : ∀ x ∈ reads, (goStart cfg ({ preAcc a r with w := wP } : A) (preW a r) evs).live x.uid = none := by
       intro x hx
       have hgone : (ticks cfg (readAll cfg reads sP)).find x.uid = none :=
         nest_gone q.nest q.top.aopen x.uid (by rw [hid]; exact hskip x hx)
-      cases hl : (goStart cfg a3 evs).live x.uid with
+      cases hl : (goStart cfg ({ preAcc a r with w := wP } : A) (preW a r) evs).live x.uid with
       | none => rfl
       | some y =>
         have := (hsimT.live x.uid (hwf' x hx)).mp (by simp [hl])
         rw [hgone] at this; cases this
-    have hgo := go_dead cfg reads (goStart cfg a3 evs) (reads.length + 1) hdead
-    have hend := roundEnd_ext cfg (Spec.roundBody.go cfg (goStart cfg a3 evs) reads [] (reads.length + 1)) evs []
-    have hallE : Spec.CoreExt others (goStart cfg a3 evs) (roundEnd cfg (Spec.roundBody.go cfg (goStart cfg a3 evs) reads []
-        (reads.length + 1)) evs []) := by rw [hgo] at hend ⊢; exact hend
-    refine ⟨⟨sim_coreExt hsimT hallE, q.top, q.j, q.t⟩, fun p hp hc hn => hallE.noErr (proven_not hp) ?_⟩
-    have hn3 : Spec.NoErr p a3 := by unfold Spec.NoErr; rw [herrs]; exact hn
+    have hgo := go_dead cfg reads (goStart cfg ({ preAcc a r with w := wP } : A) (preW a r) evs) (reads.length + 1) hdead
+    have hend := roundEnd_ext cfg (Spec.roundBody.go cfg (goStart cfg ({ preAcc a r with w := wP } : A) (preW a r) evs) reads []
+      (reads.length + 1)) evs []
+    have hallE : Spec.CoreExt others (goStart cfg ({ preAcc a r with w := wP } : A) (preW a r) evs)
+        (roundEnd cfg (Spec.roundBody.go cfg (goStart cfg ({ preAcc a r with w := wP } : A) (preW a r) evs) reads []
+          (reads.length + 1)) evs []) := by rw [hgo] at hend ⊢; exact hend
+    refine ⟨⟨sim_coreExt hsimT hallE, q.top, q.j, q.t⟩, fun p hp hn => hallE.noErr (proven_not hp) ?_⟩
+    have hn3 : Spec.NoErr p ({ preAcc a r with w := wP } : A) := by
+      show Spec.NoErr p (preAcc a r); unfold Spec.NoErr; rw [herrs']; exact hn
     by_cases h7 : p = "C07"
     · subst h7
-      -- the events of the whole round: the `accept` log line, then the periodic section
+      -- the accept branch (judged at its end, before the poll), then the periodic section (after it)
       have dK : DepE cfg none none (ticks cfg (readAll cfg reads sP)) (E1 ++ E2) := by
         obtain ⟨e, o, d⟩ := dtK.dep
         have o' : (ticks cfg (readAll cfg reads sP)).out = sP.out ++ e := by
           rw [o]; congr 1; rw [hid]
         have : e = E1 ++ E2 := List.append_cancel_left (o'.symm.trans hE)
         rw [← this]; exact d
-      have bk : Back cfg sP (ticks cfg (readAll cfg reads sP)) := by
-        have := (ticks_nest cfg (readAll cfg reads sP)).back cfg
-        rw [hid] at this ⊢; exact this
-      have dAll : DepE cfg none none (ticks cfg (readAll cfg reads sP)) evs := by
-        rw [hevs]; exact (dPre' (hc rfl)).append dK bk
-      exact goStart_c07 s.out evs hsimA q.top.aopen q.j q.t he dAll hn3
+      refine goStart_c07 (preW a r) evs (fun v hv => ?_) (fun Y hY => ?_) hn3
+      · rw [hevs] at hv ⊢
+        rcases List.mem_append.mp hv with h | h
+        · exact List.mem_append.mpr (Or.inl ((d1'.just v h).resolve_left (by simp)))
+        · exact List.mem_append.mpr (Or.inr ((dK.just v h).resolve_left (by simp)))
+      · have hYm : Y.mods = (preAcc a r).mods := hY.mods
+        have hYw : Y.w = wP := hY.w
+        have hYf : Y.fail = (preAcc a r).fail := hY.fail
+        have key := dep_ext_two (X := Y) s.out eAcc (E1 ++ E2) hs1' ao1' hsimA q.top.aopen q.j q.t (by rw [← hevs]; exact he)
+          (fun o ho hal hsb hnc => by
+            rw [hYm, hAccDef] at ho
+            exact live_old eAcc (eAcc ++ (E1 ++ E2)) hs1' (fun _ h => List.mem_append.mpr (Or.inl h)) r.accept o ho hal hsb hnc)
+          (fun o ho hal _ hnc => by
+            rw [← hevs] at hnc
+            rw [Spec.applyDepartures_live, hnc]
+            simp only [Bool.false_eq_true, if_false]
+            have hnd : (({ preAcc a r with w := preW a r } : A).mods.map (·.uid)).Nodup := by
+              have := uids_nodup hsimA.uids
+              rw [Spec.applyDepartures_uids] at this; exact this
+            exact live_of_mem hnd (by rw [hYm] at ho; exact ho) hal)
+          (fun u hu => by
+            rw [(Spec.applyDepartures_core (envA a r) eAcc).2.2.1, ← hAccW]
+            rw [hYw, ← hwP] at hu; exact (List.mem_filter.mp hu).1)
+          (fun u hu => by
+            rw [(Spec.applyDepartures_core _ evs).2.2.1]
+            rw [hYw, ← hwP] at hu
+            exact List.contains_iff_mem.mp (List.mem_filter.mp hu).2)
+          (by rw [(Spec.applyDepartures_core (envA a r) eAcc).2.1, hYf, hAccF])
+          (by rw [(Spec.applyDepartures_core _ evs).2.1, hYf]) d1' dK
+        rw [hevs]; exact key
     · rw [hgs]
       refine noErr_applyDepartures evs (hX.noErr (fun hm => ?_) hn3)
       rcases List.mem_cons.mp hm with x | x
       · exact h7 x
       · exact proven_not hp x
   · -- at least one frame was read
-    rw [hsplit, hp1, List.append_nil]
-    have hend := roundEnd_ext cfg (Spec.roundBody.go cfg (goStart cfg a3 eAcc) reads (Spec.splitRd (E1 ++ E2)).2
+    rw [hsplit, hp1, List.append_nil, preSt_ne a r hp2]
+    have hend := roundEnd_ext cfg (Spec.roundBody.go cfg (goStart cfg (preAcc a r) (preW a r) eAcc) reads (Spec.splitRd (E1 ++ E2)).2
       (reads.length + (Spec.splitRd (E1 ++ E2)).2.length + 1)) eAcc (Spec.splitRd (E1 ++ E2)).2
     exact ⟨⟨sim_coreExt hp3.sim hend, hp3.top, hp3.j, hp3.t⟩,
-      fun p hp hc hn => hend.noErr (proven_not hp) (hp4 p hp (herr0 p hp hc hn))⟩
+      fun p hp hn => hend.noErr (proven_not hp) (hp4 p hp (herr0 p hp hn))⟩
 
 end round
 
@@ -1013,19 +1113,6 @@ theorem modelRounds_length (cfg : Cfg) : ∀ (s : State) (rs : List Round), (mod
 
 /-- histories the generator produces -/
 def RoundsWF (rs : List Round) : Prop := ∀ r ∈ rs, RoundWF r
-
-/-- `AccOK` along the run of a history -/
-def AccRounds (cfg : Cfg) : State → List Round → Prop
-  | _, [] => True
-  | s, r :: rs => AccOK cfg s r ∧ AccRounds cfg (step cfg s r) rs
-
-/-- log lines of level INFO are not forwarded, or: a round that accepts a new connection delivers no frame -/
-def AccAlone (cfg : Cfg) (rs : List Round) : Prop := 20 ≥ cfg.logLevel → ∀ r ∈ rs, r.accept = true → r.reads = []
-
-theorem accRounds_of_alone (cfg : Cfg) : ∀ (rs : List Round) (s : State), AccAlone cfg rs → AccRounds cfg s rs
-  | [], _, _ => trivial
-  | r :: rs, s, h => ⟨fun ha hl => by unfold readsS; rw [h hl r (by simp) ha]; rfl,
-      accRounds_of_alone cfg rs _ (fun hl x hx => h hl x (by simp [hx]))⟩
 
 section hist
 variable {cfg : Cfg} (ok : CfgOK cfg) (hfuel : cfg.fuel = 0) (hperm : OrdPerm cfg) (hmt : cfg.mtClosed ≠ cfg.allTypes)
@@ -1099,10 +1186,10 @@ include hperm
 /-- the rounds of a history, one after the other -/
 theorem rounds_ok : ∀ (rs : List Round) (a : A) (s : State), Inv cfg a s → RoundsWF rs →
     Inv cfg ((List.zip rs (modelRounds cfg s rs)).foldl (fun a p => Spec.round cfg a p.1 p.2) a) (rs.foldl (step cfg) s) ∧
-    (∀ p ∈ proven, (p = "C07" → AccRounds cfg s rs) → Spec.NoErr p a →
+    (∀ p ∈ proven, Spec.NoErr p a →
       Spec.NoErr p ((List.zip rs (modelRounds cfg s rs)).foldl (fun a p => Spec.round cfg a p.1 p.2) a)) ∧
     s.out ++ (modelRounds cfg s rs).flatten = (rs.foldl (step cfg) s).out
-  | [], a, s, inv, _ => ⟨inv, fun _ _ _ h => h, by simp [modelRounds]⟩
+  | [], a, s, inv, _ => ⟨inv, fun _ _ h => h, by simp [modelRounds]⟩
   | r :: rs, a, s, inv, hwf => by
     have hr : RoundWF r := hwf r (by simp)
     obtain ⟨evs, hevs⟩ := step_out ok hfuel inv r hr
@@ -1111,17 +1198,16 @@ theorem rounds_ok : ∀ (rs : List Round) (a : A) (s : State), Inv cfg a s → R
     obtain ⟨inv1, herr1⟩ := round_ok ok hfuel hperm hmt inv r hr evs hevs
     obtain ⟨inv2, herr2, hfl2⟩ := rounds_ok rs (Spec.round cfg a r evs) (step cfg s r) inv1 (fun x hx => hwf x (by simp [hx]))
     simp only [modelRounds, List.zip_cons_cons, List.foldl_cons, hre, List.flatten_cons]
-    refine ⟨inv2, fun p hp hc hn => herr2 p hp (fun h7 => (hc h7).2) (herr1 p hp (fun h7 => (hc h7).1) hn), ?_⟩
+    refine ⟨inv2, fun p hp hn => herr2 p hp (herr1 p hp hn), ?_⟩
     rw [← hfl2, hevs, List.append_assoc]
 
 /-- **The model meets the Spec, for the proved properties.**  Run the model on any well-formed history, hand the Spec
 the history and the events the model wrote, round by round: the Spec's verdict contains no entry for a property in
-`proven` (for C07: when INFO log lines are not forwarded, or on histories in which a round that accepts a connection
-delivers no frame, `AccAlone`) — and its
+`proven` — and its
 abstract state at the end simulates the model's final state. -/
 theorem model_meets_spec_proven (rs : List Round) (hwf : RoundsWF rs) :
-    ∀ p ∈ proven, (p = "C07" → AccAlone cfg rs) → Spec.NoErr p (Spec.runSpec cfg rs (modelObs cfg rs) none) := by
-  intro p hp hacc
+    ∀ p ∈ proven, Spec.NoErr p (Spec.runSpec cfg rs (modelObs cfg rs) none) := by
+  intro p hp
   have hord : OrdOK cfg := ordOK_of_perm hperm
   have hallO : OrdAll cfg := OrdAll_of_perm hperm
   unfold Spec.runSpec
@@ -1132,7 +1218,7 @@ theorem model_meets_spec_proven (rs : List Round) (hwf : RoundsWF rs) :
   obtain ⟨_, herr, hflat⟩ := rounds_ok ok hfuel hperm hmt rs
     (({} : A).chk true "C03" "the manager did not play every round of the script") (init cfg)
     (init_sim ok hfuel hmt hord) hwf
-  have h1 := herr p hp (fun h7 => accRounds_of_alone cfg rs _ (hacc h7)) h0
+  have h1 := herr p hp h0
   have hnot := proven_not hp
   -- the whole log is the model's log: no malformed frame in it, nothing written to a connection after it failed
   have hall : ((init cfg).out :: modelRounds cfg (init cfg) rs).flatten = (run cfg rs).out := by
